@@ -301,6 +301,12 @@ def _models():
         choices=dict(d=dg(2)),
         states=dict(s=dg(2), t=dg(3)),
     )
+    out["auxiliary dense state a(2) (only in next_h) + dense state h(3) + dense choices d(2), e(3)"] = Model(
+        n_periods=2,
+        functions=dict(utility=lambda h, d, e, w, c: h + d + e + w + c, next_h=lambda h, a: (h + a) % 3, next_a=lambda a: a, next_w=lambda w: w),
+        choices=dict(d=dg(2), e=dg(3), c=C),
+        states=dict(a=dg(2), h=dg(3), w=W),
+    )
     out["no discrete choice at all"] = Model(
         n_periods=2,
         functions=dict(utility=lambda h, w, c: h + w + c, next_h=lambda h: h, next_w=lambda w: w),
@@ -317,6 +323,7 @@ DISCRETE_LAYOUTS = [
     "two sparse choices, sparse state(3)",
     "filter on states only + dense choice",
     "no discrete choice at all",
+    "auxiliary dense state a(2) (only in next_h) + dense state h(3) + dense choices d(2), e(3)",
 ]
 
 
@@ -335,9 +342,11 @@ def u_discrete(rec, layout):
     for period, is_last in ((0, False), (1, True)):
         space, _info, _indexer, segments = create_state_choice_space(im, period=period, is_last_period=is_last, jit_filter=False)
         calc = get_solve_discrete_problem(random_utility_shock_type=ShockType.NONE, variable_info=vi, is_last_period=is_last, choice_segments=segments)
-        # the documented layout of the conditional continuation values (user-facing info only)
-        sparse = [v for v in vi.index if vi.loc[v, "is_sparse"]]
-        dense = [v for v in vi.index if vi.loc[v, "is_dense"] and not (vi.loc[v, "is_choice"] and vi.loc[v, "is_continuous"])]
+        # the documented layout of the conditional continuation values (user-facing info only);
+        # auxiliary states (used by transition functions only) are not part of the last period's space
+        aux = (lambda v: bool(vi.loc[v, "is_auxiliary"])) if is_last and "is_auxiliary" in vi.columns else (lambda v: False)
+        sparse = [v for v in vi.index if vi.loc[v, "is_sparse"] and not aux(v)]
+        dense = [v for v in vi.index if vi.loc[v, "is_dense"] and not (vi.loc[v, "is_choice"] and vi.loc[v, "is_continuous"]) and not aux(v)]
         sizes = {v: len(im.grids[v]) for v in vi.index}
         nrows = len(next(iter(space.sparse_vars.values()))) if sparse else None
         shape = (() if nrows is None else (nrows,)) + tuple(sizes[v] for v in dense)
